@@ -9,17 +9,17 @@ import (
 // Gen produces events online: every choice comes from one PCG stream, and it looks only at what
 // the implementation answered (never at model state).
 type Gen struct {
-	r        *rand.Rand
-	p        *Profile
-	n        int
-	grants   []grant // grants observed so far (live or not)
-	blocked  []int   // lock events that were parked and not yet seen completing
-	conn     map[int]bool
-	queue    []Ev
+	r         *rand.Rand
+	p         *Profile
+	n         int
+	grants    []grant // grants observed so far (live or not)
+	blocked   []int   // lock events that were parked and not yet seen completing
+	conn      map[int]bool
+	queue     []Ev
 	afterShut bool
-	drained  bool
-	nfile    int // the first nfile entries of grants are the entries of the initial state file (InitFile)
-	Stats    map[string]int
+	drained   bool
+	nfile     int // the first nfile entries of grants are the entries of the initial state file (InitFile)
+	Stats     map[string]int
 }
 
 type grant struct {
@@ -196,14 +196,16 @@ func (g *Gen) keyFor(x *Exec) (string, *KeyRef) {
 // ---------------------------------------------------------------------------------------------------------------------
 // Initial state files (History.InitFile; Model/SeqFile.v). Every (name, key) pair of a generated file is unique (file_wf): the
 // keys are distinct uuid-shaped strings. Classes:
-//   a  consistent (control): every name has one size and at most that many entries
-//   b  a lock listed more often than its size (size 1: 2-3 entries, size n: n+1..n+2), all inside ONE session's list, the
-//      surplus entries followed by / between / after entries of OTHER names of the same list
-//   c  entries of one name with different sizes (1 vs 2) inside one list
-//   d  an entry with an invalid size (0, -1) inside one list
-//   e  the conflict (surplus / size mismatch) spread over SEVERAL sessions: the outcome depends on Go's map order (the model
-//      side tries every order of the sessions)
-//   f  empty file map, sessions with empty lists, alone or next to a list of class a / b
+//
+//	a  consistent (control): every name has one size and at most that many entries
+//	b  a lock listed more often than its size (size 1: 2-3 entries, size n: n+1..n+2), all inside ONE session's list, the
+//	   surplus entries followed by / between / after entries of OTHER names of the same list
+//	c  entries of one name with different sizes (1 vs 2) inside one list
+//	d  an entry with an invalid size (0, -1) inside one list
+//	e  the conflict (surplus / size mismatch) spread over SEVERAL sessions: the outcome depends on Go's map order (the model
+//	   side tries every order of the sessions)
+//	f  empty file map, sessions with empty lists, alone or next to a list of class a / b
+//
 // b, c, d get 0-2 further sessions with consistent entries of other names, so that the map order does not matter.
 // A file has at most maxFileEntries entries: every restored hold gets the same lease (the default lock timeout), the model side
 // (Seq.advance_loop) explores every order in which leases that end at the same instant fire, and replay keeps one candidate state
@@ -616,6 +618,33 @@ func (g *Gen) Next(x *Exec, i int, prev *Ev) (Ev, bool) {
 		case "ipcl":
 			ev = Ev{Op: "ipcl"}
 		case "ipcu":
+			if g.p.PartialPct > 0 && g.r.IntN(100) < g.p.PartialPct {
+				// a counting lock held twice, ONE of the two holds released (the first or the latest), then the admin's unlock by name
+				// and listing: what an index "name -> last key" or "name -> first key" gets wrong (seed C18e)
+				live := []int{}
+				for s0 := 0; s0 < max(g.p.Sessions, 1); s0++ {
+					if g.conn[s0] {
+						live = append(live, s0)
+					}
+				}
+				if len(live) > 0 {
+					s1, s2 := pick(g.r, live), pick(g.r, live)
+					n := pick(g.r, g.p.Names)
+					k := int32(2 + g.r.IntN(2))
+					for j := len(g.grants) - 1; j >= 0; j-- {
+						if g.grants[j].name == n && g.grants[j].size != nil && *g.grants[j].size > 1 {
+							k = *g.grants[j].size
+							break
+						}
+					}
+					rel := i + g.r.IntN(2)
+					ev = Ev{Op: "try", S: s1, Name: n, Size: &k}
+					g.queue = append(g.queue, Ev{Op: "try", S: s2, Name: n, Size: &k}, Ev{Op: "unl", S: s1, Name: n, Key: &KeyRef{Ref: rel}},
+						Ev{Op: "probe"}, Ev{Op: "ipcu", Name: n}, Ev{Op: "probe"}, Ev{Op: "ipcl"})
+					g.Stats["macro:partial-release-then-unlock-by-name"]++
+					break
+				}
+			}
 			name, key := g.keyFor(x)
 			if g.r.IntN(3) == 0 {
 				key = nil
